@@ -190,8 +190,8 @@ def case(ctx, x):
         kind = slot_kind(sch, sl)
         via_defined = sl["type"]["k"] == "named" and kind in expmodel.SIMPLE
         for variant in ("$", "empty"):
-            if variant == "empty" and (target[2] + target[0]) % 3 != 0:
-                continue    # the 'empty' variant on a third of the slots
+            if variant == "empty" and pos != "last" and (target[2] + target[0]) % 3 != 0:
+                continue    # the 'empty' variant on a third of the slots, and on every last one (where it meets the ')': F92)
             text = render_variant(pop, layout, feats, target, variant)
             for strict in (False, True):
                 tag = ctx.tag()
@@ -218,6 +218,14 @@ def case(ctx, x):
                         head = min(p["ent"].lower() for p in inst["parts"])
                         if inst["parts"][target[1]]["ent"].lower() != head and ctx.known("complex-nonhead-part-errors-dropped"):
                             continue
+                    if cx and sl.get("redeclared_by") and not sl["optional"] and F83_SIG in ctx.open_sigs:
+                        # required only through a re-declaration that ANOTHER part of the complex instance brings along, OPTIONAL
+                        # as declared: attributed to F83 iff the reader did exactly what the declaration alone asks for
+                        decl = [a for a in sch.own_slots(sl["owner"]) if a["name"].lower() == sl["name"]]
+                        if decl and decl[0]["optional"]:
+                            _e2, p2 = oracle_one(ctx.lib, sch, pop, text, target, strict, ctx.wd, ctx.tag(), dict(sl, optional=True), kind, variant)
+                            if not p2 and ctx.known(F83_SIG):
+                                continue
                     if ctx.known(sig):
                         continue
                     raise Found({"what": "[%s %s %s%s] " % (kind, expected, "strict" if strict else "lenient", " complex-part" if cx else "") + "; ".join(probs[:3]),
@@ -232,15 +240,53 @@ def reoracle(lib, f, wd):
     return oracle_one(lib, sch, pop, f["text"], target, f["strict"], wd, "confirm", t[1], slot_kind(sch, t[1]), f.get("variant", "$"))[1]
 
 
+F83_SIG = "complex-redeclared-optionality-ignored"
+
+# F92: empty value of the last attribute behind the slot of a redeclared attribute - the as-found case (seed 15) is judged on
+# every run, because no always-explored schema has an OPTIONAL last attribute behind such a slot
+REGRESSION = ("c0c92abf537366bb",)
+
+
+def regression():
+    rc = 0
+    for rid in REGRESSION:
+        path = os.path.join(common.VERIF, "replays", PROP, rid)
+        if not os.path.exists(os.path.join(path, "case.json")):
+            continue
+        lib, root = farmcheck.replay_lib(path, name="c15-regr")
+        if not lib["ok"]:
+            print("C15 regression case %s: schema does not build (C02's subject), skipped" % rid)
+            continue
+        c = json.load(open(os.path.join(path, "case.json")))
+        c["text"] = open(os.path.join(path, "input.p21")).read()
+        probs = reoracle(lib, c, root)
+        if probs and reoracle(lib, c, root) and reoracle(lib, c, root):
+            common.print_violation(PROP, path, "; ".join(probs[:5]))
+            rc = 1
+        shutil.rmtree(root, ignore_errors=True)
+    return rc
+
+
 def main(tier, seed):
     n_schemas, n_ex = (10, 12) if tier == "quick" else (60, 60)
     cfg = {"max_inst": 6} if tier == "quick" else {"max_inst": 14}
-    return farmcheck.run(PROP, "fault_enumeration", RULE, tier, seed, n_schemas, n_ex,
+    rc_regr = regression()
+    rc = farmcheck.run(PROP, "fault_enumeration", RULE, tier, seed, n_schemas, n_ex,
                          make_strategy=lambda lib: st.tuples(p21gen.populations(lib["schema"], cfg), st.integers(0, 10**6)),
                          case_fn=case,
                          confirm_fn=lambda lib, f, wd: bool(reoracle(lib, f, wd)),
                          replay_files=lambda f: {"input.p21": f["text"], "case.json": json.dumps({"pop": f["pop"], "target": f["target"], "strict": f["strict"], "variant": f.get("variant", "$")})},
                          schema_cfg=c01.SCHEMA_CFG, extra_schemas=[zoo.ZOO], min_cases=200)
+    # the regression cases are judged outside the farm: account for them in the evidence file it wrote
+    edir = os.environ.get("VERIF_EVIDENCE_DIR") or os.path.join(common.VERIF, "evidence")
+    try:
+        e = json.load(open(os.path.join(edir, PROP + ".json")))
+        e["violations"] = e.get("violations", 0) + rc_regr
+        e.setdefault("assumptions", []).append("%d saved regression case(s) (c15.REGRESSION) judged with the same oracle before the generated campaign" % len(REGRESSION))
+        json.dump(e, open(os.path.join(edir, PROP + ".json"), "w"), indent=1)
+    except (OSError, ValueError):
+        pass
+    return rc or rc_regr
 
 
 def replay(path):
